@@ -171,6 +171,12 @@ impl Oplog {
                     let mut entries: Vec<Entry> = Vec::new();
                     let mut partials: Vec<bool> = Vec::new();
                     while let Some(entry_outcome) = Self::validate_leader(entries_buff)? {
+                        // Entries carry the header bit that was current when they were written.
+                        // Entries of a previous header generation can be left behind when a flush
+                        // wrote its header but did not get to truncate the log: ignore them.
+                        if entry_outcome.header_bit != outcome.oplog.get_current_header_bit() {
+                            break;
+                        }
                         let res = Entry::decode(entry_outcome.state)?;
                         entries.push(res.0);
                         entries_buff = res.1;
